@@ -95,7 +95,21 @@ class accept_module_str(_Spec):
 
     def ensures(self, ctx):
         o, n = ctx.old_globals["_accepted_packages"], ctx.globals["_accepted_packages"]
-        return [("set_gains_exactly_the_name", n.dom == z3.Store(o.dom, ctx.args["module"].term, z3.BoolVal(True)))]
+        return _accept_post(o, n, ctx.args["module"].term)
+
+
+COVERED = z3.Function("some_dotted_prefix_accepted", z3.ArraySort(z3.StringSort(), z3.BoolSort()), z3.StringSort(), z3.BoolSort())
+
+
+def _accept_post(o, n, name):
+    """what the property needs of the registry: nothing is un-accepted, nothing else is accepted, and the new name is
+    accepted (or was already covered by an accepted parent package)"""
+    q = z3.String(sv.fresh_name("q"))
+    return [
+        ("nothing_is_unaccepted", z3.ForAll([q], z3.Implies(z3.Select(o.dom, q), z3.Select(n.dom, q)))),
+        ("nothing_else_is_accepted", z3.ForAll([q], z3.Implies(z3.And(z3.Select(n.dom, q), z3.Not(z3.Select(o.dom, q))), q == name))),
+        ("the_name_is_accepted", z3.Or(z3.Select(n.dom, name), COVERED(o.dom, name))),
+    ]
 
 
 class accept_module_mod(accept_module_str):
@@ -110,7 +124,7 @@ class accept_module_mod(accept_module_str):
 
     def ensures(self, ctx):
         o, n = ctx.old_globals["_accepted_packages"], ctx.globals["_accepted_packages"]
-        return [("set_gains_exactly_the_name", n.dom == z3.Store(o.dom, ctx.args["module"].fields["__name__"].term, z3.BoolVal(True)))]
+        return _accept_post(o, n, ctx.args["module"].fields["__name__"].term)
 
 
 SPECS = [is_authorized_path, accept_module_str, accept_module_mod]
